@@ -425,6 +425,7 @@ class Interp:
         old_safety = self.ctx.safety
         if self.world.is_numba(pyfn, fd):
             self.ctx.safety = True
+            self.ctx.opts['numba_error_model'] = self.world.numba_error_model(fd)
         self.ctx.depth += 1
         stop = self.ctx.opts.get('stop_before') if self.ctx.depth == 1 else None
         try:
@@ -760,8 +761,13 @@ class Frame:
             return
         if isinstance(seq, list):
             items = list(seq)
-            seq = Iter(len(items), None)
-            seq.items = items
+            if len(items) >= 2 and all(isinstance(x, int) and not isinstance(x, bool) for x in items) and len({b - a for a, b in zip(items, items[1:])}) == 1:
+                # a long concrete range: an arithmetic progression (cut with an invariant like a symbolic one)
+                first, step = items[0], items[1] - items[0]
+                seq = Iter(len(items), lambda i, first=first, step=step: first + step * i)
+            else:
+                seq = Iter(len(items), None)
+                seq.items = items
         if spec is None:
             raise Unsupported("loop %s#%d has a symbolic trip count and no invariant" % (self.qualname, myord))
         self.cut_loop(st, spec, seq, st.target)
@@ -1178,10 +1184,12 @@ class Frame:
         if name == 'Div':
             rs = O.simp(r)
             if not (isinstance(rs, (int, float)) and rs != 0):
-                if self.ctx.safety:
-                    pass
-                else:
-                    self.ctx.may_raise(O.eq(r, 0), 'ZeroDivisionError')
+                # numba kernels too: the default error model of @njit is 'python' (a division by zero raises
+                # ZeroDivisionError); only error_model='numpy' yields inf / nan silently - such a kernel is outside
+                # the modelled subset
+                if self.ctx.safety and self.ctx.opts.get('numba_error_model') == 'numpy':
+                    raise Unsupported("division in a kernel compiled with error_model='numpy'")
+                self.ctx.may_raise(O.eq(r, 0), 'ZeroDivisionError')
             return O.truediv(l, r)
         if name == 'Pow':
             rs = O.simp(r)
